@@ -28,7 +28,8 @@ COQ_HEADER = ("From Coq Require Import List NArith ZArith.\nFrom SK Require Impo
 SHARD = 450
 IMPL_TIMEOUT = 1500
 COQ_TIMEOUT = 900
-RULE = ("round 3 adds histories (one case = a script of queries, in-place edits and result mutations on ONE shared ITS object; non-trivial = two steps "
+RULE = ("rounds 4-5 add pair-labelled ITS graphs (non-trivial = a centre atom carries a pair label), reaction dicts / direct helper calls / pass-by-pass states (non-trivial = "
+        "the call returns a result and, for the passes, a later pass adds something); round 3 adds histories (one case = a script of queries, in-place edits and result mutations on ONE shared ITS object; non-trivial = two steps "
         "answer differently), wrapper, degenerate-value and 100-150-atom cases.  ITS graphs (synthetic, ITSGraph of synthetic pairs with and without ignore_aromaticity/balance_its, rsmi_to_its of corpus reactions and "
         "rewritings), radii 0..3 (helpers: 0,1,4,7 and -1); get_rc under all four (disconnected, keep_mtg) settings and several element_key "
         "lists; lists of reaction dicts; non-trivial = ITS of a recognised class (standard_order = difference, or the ignore_aromaticity rule) "
@@ -51,7 +52,11 @@ EXPLANATION = ("Exhaustive sub-spaces (both tiers): ALL ITS graphs on 1..3 nodes
                "keyword; caller-side mutation of returned graphs; the same object several times in a list) + 12 hand-written ones, get_rc with bond_key / "
                "standard_key, remove_normal_edges('is_mtg'), rsmi_to_its(core), HierContext.fit, 70 fixed degenerate cases (empty ITS, single/isolated atoms, "
                "no changed bond, 0 / 0.0 / -0.0, ids 0 and 4e9, elements '' and '*', absent labels, radius 50, self loops; raw values outside the model are "
-               "monitored only), ITS graphs with 100-150 atoms.  Theorems: see LEVEL_TEXT.")
+               "monitored only), ITS graphs with 100-150 atoms.  Rounds 4-5: 1340 pair-labelled cases (construct defaults / options on C01's two-node scope, random, malformed "
+               "and corpus pairs; the exhaustive two-node option scope pair-labelled; random partly pair-labelled graphs; mixed store=True/False histories; raw label shapes), "
+               "190 reaction-dict cases (key options, key order, existing / identical context key, KeyError / non-graph value, lists with an erroneous element), 120 direct "
+               "find_nearest_neighbors calls (start atoms outside the graph, n_knn <= 0), 276 pass-by-pass cases + truth tables, n_knn < -1, rsmi_to_its(core, explicit_hydrogen).  "
+               "Theorems: see LEVEL_TEXT.")
 TRUSTED_BASE = [
     "Coq 8.16.1 kernel + vm_compute (no native_compute); stdlib only",
     "hand-written models coq/model/C02_Model.v (get_rc, get_rc with element_key/disconnected/keep_mtg, find_nearest_neighbors, extract_k incl. "
@@ -63,6 +68,9 @@ TRUSTED_BASE = [
     "networkx Graph.subgraph / neighbors / copy semantics; for n_knn=-1 the adjacency iteration order of networkx (cases are fed in networkx "
     "iteration order so that the model's edge-list order is the implementation's)",
     "joblib.Parallel(n_jobs=1) runs the generator sequentially in-process",
+    "models coq/model/C02_Store.v (get_rc / extract_k / find_unequal_order_edges on pair- and absent-label graphs) and coq/model/C02_Api.v (reaction dicts, direct "
+    "find_nearest_neighbors, the four passes of get_rc, truth tables), encoder harness/gen/c02_store.py; C01's models its_construct_o / its_construct_S / h_to_explicit_its "
+    "(imported read-only); networkx Graph.neighbors raising NetworkXError for a missing node; rc.nodes iteration order = insertion order (pass-by-pass cases)",
     "rsmi_to_its(core=...) for corpus cases goes through RDKit + MolToGraph (C01's modelled-not-verified half) before the graphs reach the model",
 ]
 ASSUMPTIONS = [
@@ -85,11 +93,12 @@ TESTED_NOT_PROVED = [
     "oracle against a fresh evaluation and against the set-based reference); nested attribute lists (neighbors) ARE shared by reference between an ITS, "
     "its centre and its contexts (networkx shallow copies) and the oracle does not demand otherwise",
     "paralle_context_extraction with n_jobs > 1 (joblib falls back to 1 inside the harness' daemonic workers)",
+    "object identity: context_extraction returns a NEW dict whose other entries ARE the input's objects (oracle list-output-dict); the model's dicts are values",
     "get_rc / the RadiusExpand helpers do not mutate their input graph, their element_key list or earlier results; context_extraction copies the dict "
     "(oracle on every option / helper / list / history case)",
     "isinstance(order, tuple) in find_unequal_order_edges: ITS graphs whose order is a list are outside the model (the library never builds them)",
 ]
-LEVEL_TEXT = ("Machine-checked proof (Coq, 43 theorems, all closed under the global context) over an executable model of get_rc and RadiusExpand: on every "
+LEVEL_TEXT = ("Machine-checked proof (Coq, 72 theorems, all closed under the global context) over an executable model of get_rc and RadiusExpand: on every "
               "well-formed ITS graph whose standard_order is the order difference the centre contains a bond iff its two orders differ or both atoms "
               "are hydrogens (for ignore_aromaticity ITS graphs: iff the orders differ by at least 1, with a witness that 'differs' alone fails; "
               "stated also on the two sides: for the ITS of a reactant graph G and a product graph H two atoms are joined in the centre iff they are "
@@ -105,7 +114,13 @@ LEVEL_TEXT = ("Machine-checked proof (Coq, 43 theorems, all closed under the glo
               "extract_k option handling incl. n_knn=-1 (longest_radius_extension: the result is the first longest path of the search trace and every traced path is a longest simple chain of unchanged bonds from its start atom avoiding the atoms excluded at that moment); the contexts commute with renumbering, carry the centre (the centre of a context is the centre) and nest (the radius-k context of a radius-k' context is the radius-k context); remove_normal_edges for standard_order and is_mtg; extract_subgraph; list extraction is element-wise.  The model is compared with the Python code on every run "
               "(exhaustive <= 3-node scopes for the default and for the options, random/inconsistent/ignore_aromaticity ITS graphs, corpus "
               "reactions and rewritings, radii 0..7, 50 and -1, lists, wrappers rsmi_to_its(core) and HierContext.fit, degenerate values, 100-150 atoms) and, since "
-              "round 3, on HISTORIES: scripts of 3-7 calls and in-place edits on one shared ITS object.")
+              "round 3, on HISTORIES: scripts of 3-7 calls and in-place edits on one shared ITS object.  Rounds 4-5: ITS graphs whose labels are (reactant, product) "
+              "pairs (ITSConstruction.construct, store=True): get_rc runs in lock step with the scalar model on the flattened graph, copies every label unchanged, keeps "
+              "H-H bonds (element 'H' or the pair ('H','H'): defect repaired in /repo 01341f7), is well-formed, idempotent and equivariant there, and its flattened centre is "
+              "the centre of the store=False ITS of the same graphs; contexts for every label shape and any start atoms; calling conventions (reaction dicts through "
+              "context_extraction / paralle_context_extraction, direct find_nearest_neighbors, n_knn < -1); get_rc pass by pass (the four helpers called one by one, every "
+              "intermediate state compared); rsmi_to_its(core=True, explicit_hydrogen=True): explicit hydrogens do not change the centre's bonds unless a hydrogen atom "
+              "carries implicit hydrogens (witness, replayed on the code).")
 LEVEL_NOTE = ("ITS graphs whose standard_order follows neither rule are outside the hypotheses of the 'order differs' theorems and are checked by "
               "correspondence only; on ignore_aromaticity ITS graphs the property text's clause 'order differs => in the centre' is false by design "
               "of the option (the check demands the |difference| >= 1 version there); the RDKit front end used to obtain corpus ITS graphs is "
@@ -1675,6 +1690,12 @@ def gen_wrappers(rng, tier):
         # synkit.Rule.Modify.implict_rule.implicit_rule is not importable on the unchanged tree (ImportError: remove_explicit_H_from_rsmi
         # is not exported by synkit.Chem.Reaction), so that wrapper cannot be exercised; its body is get_rc(ITSGraph(r, p, balance_its=...),
         # disconnected=...), which the option populations cover.  (impl_wrap / oracle_wrap keep the branch for the day it is repaired.)
+    # the hypothesis of theorem C02_explicit_h_bonds, on the real code: a hydrogen ATOM with an implicit hydrogen ("[HH]") gets an explicit H
+    # neighbour and the new H-H bond enters the centre; with both hydrogens written as atoms, and without H2, nothing changes
+    for i, r in enumerate(("[HH:1].[CH2:2]=[CH2:3]>>[HH:1].[CH3:2][CH2:3]", "[H:1][H:4].[CH2:2]=[CH2:3]>>[H:1][H:4].[CH3:2][CH2:3]",
+                           "[CH2:2]=[CH2:3].[OH2:1]>>[CH3:2][CH2:3][OH:1]")):
+        cases.append(dict(kind="wrap-core-eh", wrap="rsmi_to_its", rsmi=r, core=True, eh=True, name="wrap/explicit-hydrogen/%d" % i))
+        cases.append(dict(kind="wrap-core", wrap="rsmi_to_its", rsmi=r, core=True, name="wrap/explicit-hydrogen/%d/implicit" % i))
     pool = [c["I"] for c in gen_random_its(rng, 60, "its-rand", maxn=8)]
     for _ in range(12 if q else 50):
         cases.append(dict(kind="wrap-hier", wrap="hier", Is=[rng.choice(pool) for _ in range(rng.randint(1, 4))], R=rng.choice((1, 2, 3))))
